@@ -12,10 +12,10 @@ import ast
 
 from ..model import src
 from ..report import Report, key_of
-from ..terms import dag_nodes, pretty
+from ..terms import assume, cond_leaves, dag_nodes, pretty
 from ..types import Ctx
 from .c08 import check_name_tests
-from .common import TRUSTED_BASE, cfg_nodes_for, subst_single_assign, where
+from .common import TRUSTED_BASE, bound_args, cfg_nodes_for, expanded_facts, inl, subst_single_assign, where
 from .purity import check_stateless
 
 
@@ -72,8 +72,13 @@ def check_context_isolation(A, R: Report, rid: str):
         for n in ast.walk(lp):
             if isinstance(n, ast.Call) and isinstance(n.func, ast.Attribute) and n.func.attr in ('update', 'append', 'extend', 'setdefault'):
                 base = n.func.value
-                while isinstance(base, ast.Subscript):
-                    base = base.value
+                for _ in range(4):
+                    while isinstance(base, ast.Subscript):
+                        base = base.value
+                    nb = subst_single_assign(A, fmc, base) if isinstance(base, ast.Name) and not acc.get(base.id) else base
+                    if nb is base:
+                        break
+                    base = nb
                 if isinstance(base, ast.Name):
                     mutated.add(base.id)
                 elif isinstance(base, ast.Attribute):
@@ -135,12 +140,28 @@ def run(A, R: Report, thorough: bool):
 
     # ---- R09.3
     R.rule('R09.3', 'a per-namespace context entry applies to exactly the config\'s namespace (== on whole namespace paths)', floor=1)
-    cmps = [n for n in A.typer.own_nodes(fac) if isinstance(n, ast.Compare) and 'namespace' in src(n)]
-    if not cmps:
-        R.undecided('R09.3', 'Config.apply_context', 'namespace comparison not recognised', where=where(fac))
-    for c in cmps:
-        ok = len(c.ops) == 1 and isinstance(c.ops[0], ast.Eq)
-        R.check(ok, 'R09.3', f'Config.apply_context: `{src(c)}`', key_of('ns-compare', src(c)), 'exact equality', f'`{src(c)}` is not an exact comparison of namespace paths: entries for `a` would also reach `a::b` or `ab`', where=where(fac, c))
+    cfg3 = A.cfg(fac)
+    ns_updates = [u for u in [n for n in inl(A, fac) if isinstance(n, ast.Call) and isinstance(n.func, ast.Attribute) and n.func.attr == 'update' and src(n.func.value) == 'self._data']
+                  if any(isinstance(p, ast.For) and 'for_namespaces' in src(p.iter) for p in _parents(u))]
+    if not ns_updates:
+        R.undecided('R09.3', 'Config.apply_context', 'per-namespace update not recognised', where=where(fac))
+    for u in ns_updates:
+        lp = next(p for p in _parents(u) if isinstance(p, ast.For) and 'for_namespaces' in src(p.iter))
+        keyvar = lp.target.elts[0].id if isinstance(lp.target, ast.Tuple) and isinstance(lp.target.elts[0], ast.Name) and src(lp.iter).endswith('.items()') else \
+            (lp.target.id if isinstance(lp.target, ast.Name) else None)
+        ok = keyvar is not None
+        shown = []
+        for cn in cfg_nodes_for(cfg3, u):
+            exact = False
+            for a_, pol in expanded_facts(A, fac, cfg3, cn.id):
+                if isinstance(a_, ast.Compare) and len(a_.ops) == 1 and ((isinstance(a_.ops[0], ast.Eq) and pol) or (isinstance(a_.ops[0], ast.NotEq) and not pol)):
+                    sides = {src(subst_single_assign(A, fac, a_.left)), src(subst_single_assign(A, fac, a_.comparators[0]))}
+                    if sides == {'self.namespace', keyvar}:
+                        exact = True
+                        shown.append(src(a_))
+            ok = ok and exact
+        R.check(ok, 'R09.3', f'Config.apply_context: `{src(u)[:50]}`', key_of('ns-compare', src(u)[:50]), f'guarded by exact equality {shown[:1]}',
+                f'the per-namespace update `{src(u)[:60]}` is not guarded by an exact comparison of the entry\'s namespace with the config\'s namespace: entries for `a` would also reach `a::b` or `ab`', where=where(fac, u))
     for n in A.typer.own_nodes(fac):
         if isinstance(n, ast.Call) and isinstance(n.func, ast.Attribute) and n.func.attr in ('startswith', 'endswith') and 'namespace' in src(n):
             R.violation('R09.3', f'Config.apply_context: `{src(n)}`', key_of('ns-affix', src(n)), f'`{src(n)}` matches namespaces by affix: a context entry for one namespace leaks into others', where=where(fac, n))
@@ -149,24 +170,37 @@ def run(A, R: Report, thorough: bool):
     R.rule('R09.4', 'every config created for a `uses` entry inherits base dir, global vars and context, and gets the composed namespace', floor=2)
     fpc = A.func('Chain._process_config')
     cp = fpc.params[1]
-    ctors = [n for n in A.typer.own_nodes(fpc) if isinstance(n, ast.Call) and src(n.func) == 'Config']
-    R.require(len(ctors) >= 2, 'anchor: expected two Config(...) constructions in Chain._process_config')
+    ctors = [n for n in inl(A, fpc) if isinstance(n, ast.Call) and src(n.func) == 'Config']
+    R.require(len(ctors) >= 1, 'anchor: no Config(...) construction in Chain._process_config')
+    cinit = cfgc.lookup('__init__')
+    cpt = ('p', cp)
+    own_ns = ('attr', cpt, 'namespace')
     for c in ctors:
-        kws = {kw.arg: src(kw.value) for kw in c.keywords}
-        pos = [src(a) for a in c.args]
+        ba = bound_args(c, cinit) or {}
+        at = A.sym.terms_at(fpc, ('inst', A.cls('Chain')), list(ba.values()))
+        terms = {k: at[id(v)] for k, v in ba.items()}
         problems = []
-        if not (pos and pos[0] == f'{cp}.base_dir' or kws.get('base_dir') == f'{cp}.base_dir'):
-            problems.append('base_dir not inherited')
-        if kws.get('global_vars') != f'{cp}.global_vars':
-            problems.append('global_vars not inherited')
-        if kws.get('context') != f'{cp}.context':
-            problems.append('context not inherited')
-        ns = kws.get('namespace', '')
-        if f'{cp}.namespace' not in ns:
+        for name in ('base_dir', 'global_vars', 'context'):
+            if terms.get(name) != [('attr', cpt, name)]:
+                problems.append(f'{name} not inherited')
+        nss = terms.get('namespace') or []
+        if not nss:
             problems.append('namespace of the using config is not part of the used config\'s namespace')
-        elif 'matched' in ns and '::' not in ns:
-            problems.append('namespaces are not composed with `::`')
-        R.check(not problems, 'R09.4', f'Chain._process_config: `{src(c)[:40]}...`', key_of('propagation', sorted(problems)), 'base_dir, global_vars, context, composed namespace', '; '.join(problems), where=where(fpc, c))
+        for n in nss:
+            # with an own namespace every alternative is the own namespace or <own>::<alias>
+            under = assume(n, lambda c: True if c == own_ns else (False if c == ('cmp', 'Is', own_ns, ('lit', None)) else None))
+            for leaf in cond_leaves(under):
+                if leaf == own_ns:
+                    continue
+                if leaf[0] == 'cat' and len(leaf[1]) == 3 and leaf[1][0] == own_ns and leaf[1][1] == ('lit', '::') and own_ns not in dag_nodes(leaf[1][2]):
+                    continue
+                if own_ns not in dag_nodes(leaf):
+                    problems.append('namespace of the using config is not part of the used config\'s namespace')
+                else:
+                    problems.append('namespaces are not composed with `::`')
+                break
+        R.check(not problems, 'R09.4', f'Chain._process_config: `{src(c)[:40]}...`', key_of('propagation', sorted(set(problems))), 'base_dir, global_vars, context, composed namespace', '; '.join(sorted(set(problems))),
+                witness=[f'{k} = {pretty(v[0])[:160]}' for k, v in terms.items() if v], where=where(fpc, c))
     obj_branch = [n for n in A.typer.own_nodes(fpc) if isinstance(n, ast.Assign) and src(n.targets[0]) in ('use.context', 'use.namespace')]
     ctx_ok = any(src(n.targets[0]) == 'use.context' and src(n.value) == f'{cp}.context' for n in obj_branch)
     ns_ok = any(src(n.targets[0]) == 'use.namespace' and '::' in src(n.value) and f'{cp}.namespace' in src(n.value) for n in obj_branch)
@@ -255,18 +289,31 @@ def run(A, R: Report, thorough: bool):
     # ---- R09.8
     R.rule('R09.8', '#part references are rewritten to file#part for exactly the entries starting with #; a part is selected by name or as the unique main part', floor=2)
     fuu = cfgc.lookup('_update_uses')
-    stores8 = [n for n in A.typer.own_nodes(fuu) if isinstance(n, ast.Assign) and isinstance(n.targets[0], ast.Subscript) and "['uses']" in src(n.targets[0]) and isinstance(n.targets[0].value, ast.Subscript)]
     cfg = A.cfg(fuu)
+    stores8 = []
+    for lp in [n for n in inl(A, fuu) if isinstance(n, ast.For)]:
+        # for i, use in enumerate(<uses list>): <uses list>[i] = ...
+        if not (isinstance(lp.iter, ast.Call) and src(lp.iter.func) == 'enumerate' and isinstance(lp.target, ast.Tuple) and len(lp.target.elts) == 2 and all(isinstance(e, ast.Name) for e in lp.target.elts)):
+            continue
+        idx, elem = lp.target.elts[0].id, lp.target.elts[1].id
+        seq = src(subst_single_assign(A, fuu, lp.iter.args[0])) if lp.iter.args else ''
+        if "['uses']" not in seq:
+            continue
+        for n in ast.walk(lp):
+            if isinstance(n, ast.Assign) and isinstance(n.targets[0], ast.Subscript) and src(n.targets[0].slice) == idx:
+                base = src(subst_single_assign(A, fuu, n.targets[0].value))
+                stores8.append((n, elem, base == seq or "['uses']" in base))
     ok8 = bool(stores8)
-    for st in stores8:
+    for st, elem, same_list in stores8:
         for cn in cfg_nodes_for(cfg, st):
-            texts = [(src(a), pol) for a, pol in cfg.facts_at(cn.id)]
-            guard = any("startswith('#')" in t and pol for t, pol in texts)
-            val = src(st.value)
-            ok8 = ok8 and guard and '_filepath' in val and 'use' in val
-    R.check(ok8, 'R09.8', 'Config._update_uses', key_of('part-rewrite', [src(s) for s in stores8]), '`#part` -> `<own file>#part`', '`#part` references are not rewritten to the own file (or other entries are rewritten too)', where=where(fuu))
+            guard = any(isinstance(a_, ast.Call) and isinstance(a_.func, ast.Attribute) and a_.func.attr == 'startswith' and src(a_.func.value) == elem and a_.args and src(a_.args[0]) in ("'#'", '"#"') and pol
+                        for a_, pol in expanded_facts(A, fuu, cfg, cn.id))
+            t = A.sym.terms_at(fuu, ('inst', cfgc), [st.value])[id(st.value)]
+            val_ok = bool(t) and all(x[0] == 'cat' and len(x[1]) == 2 and ('attr', ('self',), '_filepath') in dag_nodes(x[1][0]) and x[1][1][0] == 'var' for x in t)
+            ok8 = ok8 and guard and val_ok and same_list
+    R.check(ok8, 'R09.8', 'Config._update_uses', key_of('part-rewrite', [src(s_[0]) for s_ in stores8]), '`#part` -> `<own file>#part`', '`#part` references are not rewritten to the own file (or other entries are rewritten too)', where=where(fuu))
     fgp = cfgc.lookup('_get_part')
-    text = src(fgp.node)
+    text = '\n'.join(src(o.node) for o in {o.qualname: o for _, o in A.nodes(fgp)}.values())
     sel = "['configs'][self._part]" in text
     main = 'main_part' in text and 'raise KeyError' in text
     R.check(sel and main, 'R09.8', 'Config._get_part', key_of('part-select', sel, main), 'named part, else the main part, else an error', 'part selection no longer is: the named part, else the unique main part, else an error', where=where(fgp))
